@@ -19,9 +19,15 @@ CHECKS = {"bit_reader.rs": ["C01", "C03"], "bit_reader_reverse.rs": ["C01", "C13
           "compressed.rs": ["C14", "C16", "C02"], "frame_compressor.rs": ["C02", "C15"], "frame_header.rs": ["C14", "C15"], "fastest.rs": ["C02", "C16"],
           "match_generator.rs": ["C17", "C02"], "fse_decoder.rs": ["C01", "C12"], "fse_encoder.rs": ["C16", "C12"],
           "huff0_decoder.rs": ["C13", "C01"], "huff0_encoder.rs": ["C13", "C02"]}
-SKIP = re.compile(r"^\s*//|///|assert|->|=>|<<|>>|killingspark|#\[|\bfn |\bimpl\b|\bwhere |Vec<|Option<|Result<|&mut |for .* in ")
-OP = re.compile(r" (<=|>=|<|>) ")
-FLIP = {"<": "<=", "<=": "<", ">": ">=", ">=": ">"}
+FAMILY = os.environ.get("MUT_FAMILY", "cmp")
+SKIP = re.compile(r"^\s*//|///|assert|killingspark|#\[" if FAMILY == "pm1" else r"^\s*//|///|assert|->|=>|<<|>>|killingspark|#\[|\bfn |\bimpl\b|\bwhere |Vec<|Option<|Result<|&mut |for .* in ")
+if FAMILY == "pm1":
+    # second family: an added or subtracted 1 is dropped
+    OP = re.compile(r" ([+-] 1)\b")
+    FLIP = {"+ 1": "+ 0", "- 1": "- 0"}
+else:
+    OP = re.compile(r" (<=|>=|<|>) ")
+    FLIP = {"<": "<=", "<=": "<", ">": ">=", ">=": ">"}
 
 
 def sites(root="/repo"):
